@@ -94,6 +94,63 @@ fn family(st: &mut Stats, name: &str, pats: &[Vec<char>], texts: &[Vec<char>]) {
     st.merge(part);
 }
 
+/// The matcher where the application calls it: the host pattern of a sub-app against the Host header
+/// and a route pattern against the request path, asked through the real connection handler. Patterns and
+/// texts contain multi-byte characters (lengths counted in bytes vs characters differ there).
+fn dispatch_family(st: &mut Stats, maxlen: usize) {
+    use crate::props::c01::read_responses;
+    use crate::props::c04::{build, Cfg};
+    use humphrey::stream::Stream;
+    use humphrey::verif::net::{ScriptSock, Step, TcpStream};
+    use rayon::prelude::*;
+    let pats: Vec<Vec<char>> = words(&['*', 'a', 'é', '😀'], maxlen).into_iter().filter(|w| !w.is_empty()).collect();
+    let texts: Vec<Vec<char>> = words(&['a', 'é', '😀'], maxlen).into_iter().filter(|w| !w.is_empty()).collect();
+    let ask = |parts: &humphrey::app::VerifParts<()>, target: &str, host: &str| -> Option<String> {
+        let req = format!("GET {} HTTP/1.1\r\nHost: {}\r\nConnection: close\r\n\r\n", target, host);
+        let sock = ScriptSock::new("127.0.0.1:9".parse().unwrap(), vec![Step::Seg(req.into_bytes()), Step::Eof]);
+        let s2 = sock.clone();
+        std::panic::catch_unwind(std::panic::AssertUnwindSafe(|| parts.serve(Stream::Tcp(TcpStream::Script(s2))))).ok()?;
+        let out = sock.lock().unwrap().out.clone();
+        let g = read_responses(&out).ok()?;
+        (g.len() == 1 && g[0].status == 200).then(|| String::from_utf8_lossy(&g[0].body).to_string())
+    };
+    let part = pats
+        .par_iter()
+        .fold(Stats::default, |mut s, p| {
+            let ps: String = p.iter().collect();
+            // (a) as a host pattern: the sub-app answers iff the pattern matches the Host value, else the default app
+            // (`*` alone is the default application's own host and is refused by with_host: asked as `**`)
+            let host_pat = if ps == "*" { "**".to_string() } else { ps.clone() };
+            let as_host = build(&Cfg { hosts: vec![(host_pat, vec!["/*".into()], vec![])], default_routes: vec!["/*".into()], default_ws: vec![] }).verif_into_parts();
+            // (b) as a route pattern: that route answers iff it matches the path, else the catch-all registered after it
+            let as_route = build(&Cfg { hosts: vec![], default_routes: vec![format!("/{}", ps), "/*".into()], default_ws: vec![] }).verif_into_parts();
+            for t in &texts {
+                let ts: String = t.iter().collect();
+                let m = glob_ref(p, t);
+                s.states += 1;
+                for (what, got, want) in [("host pattern of a sub-app", ask(&as_host, "/", &ts), if m { "h0r0" } else { "dr0" }), ("route pattern", ask(&as_route, &format!("/{}", ts), "x"), if m { "dr0" } else { "dr1" })] {
+                    s.evaluations += 1;
+                    s.transitions += 1;
+                    if p.contains(&'*') && p.iter().any(|c| *c != '*') {
+                        s.nontrivial += 1;
+                    }
+                    if got.as_deref() != Some(want) {
+                        let class = if m { "rejects a text the pattern matches" } else { "accepts a text the pattern does not match" };
+                        s.violation(format!("[dispatch: {}] {}", what, class), || json!({"pattern": ps, "text": ts, "answered_by": got, "expected": want}));
+                    } else {
+                        s.outcome(if m { "match" } else { "no-match" });
+                    }
+                }
+            }
+            s
+        })
+        .reduce(Stats::default, |mut a, b| {
+            a.merge(b);
+            a
+        });
+    st.merge(part);
+}
+
 pub fn run(mut cx: Ctx) -> ! {
     cx.rule = "every (pattern, text) pair of the bounded families is run through the real wildcard_match and compared with a DP glob matcher; states = distinct pairs, transitions = calls; non-trivial = pattern has both a `*` and a literal and the text is non-empty".into();
     let (pl, tl) = (6usize, 8usize);
@@ -131,6 +188,9 @@ pub fn run(mut cx: Ctx) -> ! {
     cx.bound("host_family_label_len", lmax);
     cx.bound("host_family_text_len", tmax);
     family(&mut st, "host-shaped", &pats, &words(&['a', '.'], tmax));
+    let dl = cx.pick(3, 4);
+    cx.bound("dispatch_family_len", dl);
+    dispatch_family(&mut st, dl);
     cx.stats.merge(st);
     cx.finish()
 }
